@@ -277,6 +277,24 @@ func (g *c16Gen) punct(s string) { g.toks = append(g.toks, c16Tok{s, tkPunct}) }
 
 var c16Comments = []string{"x", "FROM mem", "JOIN prod.cpu ON 1", "WITH c AS (", "SELECT * FROM cpu", "time 5"}
 
+// gluedComment is a separator that puts a comment directly against the
+// preceding token, with no blank in between (`WITH/* c */ x`, `FROM/**/cpu`,
+// `WITH-- c\nx`).
+func (g *c16Gen) gluedComment() string {
+	g.feat["comment"] = true
+	g.feat["glued-comment"] = true
+	switch rapid.IntRange(0, 3).Draw(g.t, "glued") {
+	case 0:
+		return "/**/"
+	case 1:
+		return "/* " + rapid.SampledFrom(c16Comments).Draw(g.t, "gcmt") + " */ "
+	case 2:
+		return "/*" + rapid.SampledFrom(c16Comments).Draw(g.t, "gcmt") + "*/"
+	default:
+		return "-- " + rapid.SampledFrom(c16Comments).Draw(g.t, "gcmt") + "\n"
+	}
+}
+
 func (g *c16Gen) sep(required bool) string {
 	if !required && rapid.IntRange(0, 9).Draw(g.t, "optsep") < 6 {
 		return ""
@@ -312,6 +330,13 @@ func (g *c16Gen) render() string {
 	seps := make([]string, len(g.toks))
 	for i := 1; i < len(g.toks); i++ {
 		req := !(g.toks[i].kind == tkPunct || g.toks[i-1].kind == tkPunct)
+		// the keywords the rewriter scans for get a comment glued to them
+		// (no blank) noticeably often
+		if k := g.toks[i-1].kind; (k == tkWITH && rapid.IntRange(0, 2).Draw(g.t, "gluewith") == 0) ||
+			((k == tkFROM || k == tkJOIN || k == tkCTEAS) && rapid.IntRange(0, 5).Draw(g.t, "gluekw") == 0) {
+			seps[i] = g.gluedComment()
+			continue
+		}
 		seps[i] = g.sep(req)
 	}
 	build := func() string {
@@ -665,7 +690,7 @@ type c16From struct {
 // source emits one FROM item: a measurement, a CTE in scope, or a subquery.
 func (g *c16Gen) source(depth int) c16Src {
 	k := rapid.IntRange(0, 9).Draw(g.t, "srckind")
-	if k < 2 && len(g.ctes) > 0 {
+	if (k < 2 || (depth == 0 && k < 6)) && len(g.ctes) > 0 { // the main SELECT mostly reads its CTEs
 		c := g.ctes[rapid.IntRange(0, len(g.ctes)-1).Draw(g.t, "ctepick")]
 		g.raw(c.Alias)
 		a := g.newAlias()
@@ -1052,7 +1077,7 @@ var c16CteNames = []string{"c", "recent", "Agg_1", "my-cte", "joined"}
 // statement emits the whole statement: optional WITH list + main select.
 func (g *c16Gen) statement() {
 	ncte := 0
-	if rapid.IntRange(0, 9).Draw(g.t, "usecte") < 3 {
+	if rapid.IntRange(0, 19).Draw(g.t, "usecte") < 7 {
 		ncte = rapid.IntRange(1, 2).Draw(g.t, "ncte")
 	}
 	if ncte > 0 {
